@@ -306,6 +306,52 @@ func vpH_C08_store_through_view() {
 	vpReach("end")
 }
 
+// the item-list view of a collection (ToItemCollection / OnItemCollection on a pointer): it is the
+// collection's own list - a member appended or removed through it is seen by the collection
+func vpH_C08_item_list_view() {
+	var x Item
+	a, b := vpMkIRI('a'), vpMkIRI('b')
+	pre := ItemCollection{a, &Object{ID: b, Type: NoteType}}
+	kind := vpChoice(5)
+	switch kind {
+	case 0:
+		x = &Collection{ID: "https://h.ex/c", Type: CollectionType, Items: pre}
+	case 1:
+		x = &CollectionPage{ID: "https://h.ex/c", Type: CollectionPageType, Items: pre}
+	case 2:
+		x = &OrderedCollection{ID: "https://h.ex/c", Type: OrderedCollectionType, OrderedItems: pre}
+	case 3:
+		x = &OrderedCollectionPage{ID: "https://h.ex/c", Type: OrderedCollectionPageType, OrderedItems: pre}
+	default:
+		x = &pre
+	}
+	cell := []string{"Collection", "CollectionPage", "OrderedCollection", "OrderedCollectionPage", "ItemCollection"}[kind]
+	col, _ := x.(CollectionInterface)
+	extra := IRI("https://h.ex/extra")
+	viaOn := vpBool()
+	write := func(v *ItemCollection) {
+		if vpBool() {
+			_ = v.Append(extra)
+		} else {
+			v.Remove(a)
+		}
+	}
+	before := int(col.Count())
+	if viaOn {
+		err := OnItemCollection(x, func(v *ItemCollection) error { write(v); return nil })
+		vpAssert("item-list-view/on-accepts/"+cell, err == nil)
+	} else {
+		v, err := ToItemCollection(x)
+		vpAssert("item-list-view/to-accepts/"+cell, err == nil && v != nil)
+		if v != nil {
+			write(v)
+		}
+	}
+	after := int(col.Count())
+	vpAssert("item-list-view/write-seen-by-original/"+cell, after != before && (col.Contains(extra) || !col.Contains(a)))
+	vpReach("end")
+}
+
 func vpW_C08_twin() {
 	x := vpPopulated(1)
 	_, _ = ToObject(x)
